@@ -35,7 +35,9 @@ CLAIMED = {
                "multiplexers, register bridges, event monitors, GPIO) flattened into one netlist; against the ROOT "
                "memory map: leaf strobes iff the address decodes to that leaf and chunk offsets (CSR roots, from an "
                "arbitrary state, symbolic root address), and one symbolic Wishbone transfer from reset reaching "
-               "exactly the mapped leaves / SRAM words, never acknowledged outside every window.",
+               "exactly the mapped leaves / SRAM words, never acknowledged outside every window; plus two concrete obligations on the "
+               "root map itself (every register built is listed; decode_address agrees with all_resources at range ends, "
+               "also after look-ups made while the hierarchy was being built).",
                "DESIGN.md section 4 C01"),
     "C02": _e2("Real MemoryMap.add_resource/add_window/align_to/freeze and the range map beneath run on symbolic "
                "addresses and sizes; every path of every enumerated call-kind sequence (length 2 exhaustively, 3-4 "
@@ -46,7 +48,8 @@ CLAIMED = {
                "DESIGN.md section 4 C02"),
     "C03": _e2("Real all_resources/find_resource/decode_address/_translate on enumerated tree shapes with symbolic "
                "placements and a symbolic decoded address, against a closed-form composition oracle; lookups (also abandoned "
-               "traversals, strangers) are interleaved with construction at every level.",
+               "traversals, strangers, look-ups of resources and addresses BEFORE their window is added) are interleaved with "
+               "construction at every level.",
                "DESIGN.md section 4 C03"),
     "C04": _e1("Real Multiplexer.elaborate (with the real shadow-balancing code) per layout: read-strobe exactness and "
                "zero-when-idle for ALL input sequences (1-2 frames from an arbitrary state), atomic snapshot of an "
